@@ -46,6 +46,9 @@ type NCFake struct {
 	// Config, if set, is the configuration get-config reports (sync checks); GetConfigs counts the answers
 	Config     Conf
 	GetConfigs int
+	// OnCall, if set, runs at the start of every driver call with the call's 0-based index (no lock held)
+	OnCall func(i int)
+	ncalls int
 }
 
 func NewNCFake() *NCFake { return &NCFake{Alive: true} }
@@ -70,6 +73,16 @@ func okReply(warn bool, noMsg ...bool) *types.NetconfResponse {
 	return types.NewNetconfResponse(d)
 }
 
+func (f *NCFake) onCall() {
+	f.mu.Lock()
+	i, h := f.ncalls, f.OnCall
+	f.ncalls++
+	f.mu.Unlock()
+	if h != nil {
+		h(i)
+	}
+}
+
 func (f *NCFake) rec(c NCCall) {
 	c.Pending = len(f.Pending)
 	f.Calls = append(f.Calls, c)
@@ -92,6 +105,7 @@ func (f *NCFake) take(p *string) string {
 }
 
 func (f *NCFake) EditConfig(tgt string, doc string) (*types.NetconfResponse, error) {
+	f.onCall()
 	f.mu.Lock()
 	defer f.mu.Unlock()
 	if !f.Alive {
@@ -133,6 +147,7 @@ func (f *NCFake) EditConfig(tgt string, doc string) (*types.NetconfResponse, err
 }
 
 func (f *NCFake) Commit() error {
+	f.onCall()
 	f.mu.Lock()
 	defer f.mu.Unlock()
 	if !f.Alive {
@@ -163,6 +178,7 @@ func (f *NCFake) Commit() error {
 }
 
 func (f *NCFake) Discard() error {
+	f.onCall()
 	f.mu.Lock()
 	defer f.mu.Unlock()
 	if !f.Alive {
